@@ -96,10 +96,11 @@ func TestWrapOrder(t *testing.T) {
 
 // ReqSpec is the behaviour of one request's handler invocation.
 type ReqSpec struct {
-	Code   int  `json:"code"`   // 0: no WriteHeader
-	Header bool `json:"header"` // set a response header
-	NoBody bool `json:"no_body"`
-	Logs   int  `json:"logs"` // records written through the context logger
+	Pre1xx []int `json:"pre_1xx,omitempty"` // informational codes sent before the final status
+	Code   int   `json:"code"`              // 0: no WriteHeader
+	Header bool  `json:"header"`            // set a response header
+	NoBody bool  `json:"no_body"`
+	Logs   int   `json:"logs"` // records written through the context logger
 }
 
 // Act is one step of the harness script.
@@ -150,6 +151,43 @@ func (h *recHandler) WithAttrs(as []slog.Attr) slog.Handler {
 	return &recHandler{mu: h.mu, recs: h.recs, attrs: as}
 }
 func (h *recHandler) WithGroup(string) slog.Handler { return h }
+
+// sink is a response writer with net/http's header semantics: informational
+// 1xx codes (other than 101) do not finalise the response; the first other
+// code does; a Write without WriteHeader implies 200.
+type sink struct {
+	hdr   http.Header
+	info  []int
+	Code  int
+	final bool
+	Body  strings.Builder
+}
+
+func newSink() *sink { return &sink{hdr: http.Header{}} }
+
+func (s *sink) Header() http.Header { return s.hdr }
+func (s *sink) WriteHeader(code int) {
+	if s.final {
+		return
+	}
+	if code >= 100 && code <= 199 && code != http.StatusSwitchingProtocols {
+		s.info = append(s.info, code)
+		return
+	}
+	s.Code, s.final = code, true
+}
+func (s *sink) Write(b []byte) (int, error) {
+	if !s.final {
+		s.WriteHeader(http.StatusOK)
+	}
+	return s.Body.Write(b)
+}
+func (s *sink) status() int {
+	if !s.final {
+		return http.StatusOK
+	}
+	return s.Code
+}
 
 type ctxKey struct{}
 
@@ -214,6 +252,9 @@ func checkBatch(c BatchCase) error {
 		if spec.Header {
 			w.Header().Set("X-Resp", "resp-"+id)
 		}
+		for _, info := range spec.Pre1xx {
+			w.WriteHeader(info)
+		}
 		if spec.Code != 0 {
 			w.WriteHeader(spec.Code)
 		}
@@ -222,7 +263,7 @@ func checkBatch(c BatchCase) error {
 		}
 	}))
 
-	recorders := make([]*httptest.ResponseRecorder, n)
+	recorders := make([]*sink, n)
 	started := make([]bool, n)
 	released := make([]bool, n)
 	maxParked, parked := 0, 0
@@ -236,7 +277,7 @@ func checkBatch(c BatchCase) error {
 		req.Header.Set("X-Idx", "i"+strconv.Itoa(i))
 		req.Header.Set("X-Other", "o"+id)
 		req = req.WithContext(context.WithValue(req.Context(), ctxKey{}, id))
-		rr := httptest.NewRecorder()
+		rr := newSink()
 		recorders[i] = rr
 		go func() {
 			defer close(done[i])
@@ -305,8 +346,11 @@ func checkBatch(c BatchCase) error {
 		if spec.NoBody {
 			wantBody = ""
 		}
-		if rr.Code != wantCode || rr.Body.String() != wantBody {
-			return fmt.Errorf("client of request %s received status %d body %q, the invocation wrote status %d body %q", id, rr.Code, rr.Body.String(), wantCode, wantBody)
+		if rr.status() != wantCode || rr.Body.String() != wantBody {
+			return fmt.Errorf("client of request %s received status %d body %q, the invocation wrote status %d body %q", id, rr.status(), rr.Body.String(), wantCode, wantBody)
+		}
+		if !slices.Equal(rr.info, spec.Pre1xx) {
+			return fmt.Errorf("client of request %s received informational responses %v, the invocation sent %v", id, rr.info, spec.Pre1xx)
 		}
 		if got := rr.Header().Get("X-Resp"); spec.Header && got != "resp-"+id || !spec.Header && got != "" {
 			return fmt.Errorf("client of request %s received header X-Resp=%q", id, got)
@@ -362,6 +406,12 @@ func checkBatch(c BatchCase) error {
 	if maxParked >= 2 {
 		vp.Class("batch:>=2-requests-parked-simultaneously")
 	}
+	for _, r := range c.Reqs {
+		if len(r.Pre1xx) > 0 && r.Code != 0 {
+			vp.Class("batch:informational-1xx-before-the-final-status")
+			break
+		}
+	}
 	if startedAfterFinish {
 		vp.Class("batch:a-request-started-after-another-finished(pool reuse)")
 	}
@@ -381,12 +431,22 @@ var batchProp = vp.Register(vp.Prop[BatchCase]{
 		var acts []Act
 		for i := 0; i < n; i++ {
 			c.Reqs = append(c.Reqs, ReqSpec{
+				Pre1xx: rapid.SliceOfN(rapid.SampledFrom([]int{100, 102, 103}), 0, 2).Draw(t, "pre1xx"),
 				Code:   rapid.SampledFrom([]int{0, 0, 200, 201, 204, 301, 400, 404, 418, 500, 503, 599}).Draw(t, "code"),
 				Header: rapid.Bool().Draw(t, "header"),
 				NoBody: rapid.IntRange(0, 4).Draw(t, "nobody") == 0,
 				Logs:   rapid.IntRange(0, 2).Draw(t, "logs"),
 			})
 			acts = append(acts, Act{Kind: "start", Req: i}, Act{Kind: "release", Req: i})
+		}
+		for i := range c.Reqs {
+			// Informational responses are generated only in front of an
+			// explicit final status: what "the status it set" means for an
+			// invocation that sends 103 and then relies on the implicit 200
+			// is not settled by the statement (the recorder reports 103).
+			if c.Reqs[i].Code == 0 {
+				c.Reqs[i].Pre1xx = nil
+			}
 		}
 		c.Script = rapid.Permutation(acts).Draw(t, "script")
 		return c
